@@ -40,16 +40,20 @@ namespace BitSerializer::Detail
 			return true;
 		}
 
-		if (pos == mStreamPos || !mStream.seekg(static_cast<std::streamoff>(pos)).fail())
+		if (pos != mStreamPos)
 		{
-			mStreamPos = pos;
-			// Invalidate cache
-			mStartDataPtr = mEndDataPtr = mBuffer;
-			ReadNextChunk();
-			return true;
+			// The previous read could reach the end of stream (eofbit/failbit are set), that blocks any seeking
+			mStream.clear();
+			if (mStream.seekg(static_cast<std::streamoff>(pos)).fail()) {
+				return false;
+			}
 		}
 
-		return false;
+		mStreamPos = pos;
+		// Invalidate cache
+		mStartDataPtr = mEndDataPtr = mBuffer;
+		ReadNextChunk();
+		return true;
 	}
 
 	std::optional<char> CBinaryStreamReader::PeekByte()
